@@ -732,7 +732,8 @@ impl varlink::ConnectionHandler for Counting {
     }
 }
 
-fn listen_probe(ctx: &mut Ctx, initial: usize, max: usize, burst: bool) {
+/// One fresh server, max+2 clients held open. Returns (peak concurrency, answered among the first max, stalled, clients).
+fn listen_round(initial: usize, max: usize, burst: bool) -> (usize, usize, bool, usize) {
     PASS.store(true, Ordering::SeqCst);
     set_callback(None);
     let scratch = Scratch::new("c14");
@@ -785,6 +786,17 @@ fn listen_probe(ctx: &mut Ctx, initial: usize, max: usize, burst: bool) {
         }
     }
     let pk = peak.load(Ordering::SeqCst);
+    drop(peers);
+    let _ = server.stop();
+    (pk, answered, stalled, n)
+}
+
+/// The real listen() loop under max+2 held-open clients: the bound, and that each of the first max
+/// connections is served. A connection left unserved for 5 s while fewer than max are in service is
+/// judged by repetition: the same configuration is run up to three more times, a second occurrence
+/// makes it a stranded connection (once only: inconclusive).
+fn listen_probe(ctx: &mut Ctx, initial: usize, max: usize, burst: bool) {
+    let (pk, answered, stalled, n) = listen_round(initial, max, burst);
     ctx.case(Some(hash64(&(initial, max, burst, "listen"))));
     ctx.class(if burst { "listen:burst" } else { "listen:one-at-a-time" });
     if pk > max {
@@ -796,13 +808,32 @@ fn listen_probe(ctx: &mut Ctx, initial: usize, max: usize, burst: bool) {
         );
     }
     if stalled {
-        ctx.inconclusive(&format!(
-            "listen(initial={}, max={}): only {} of the first {} connections were answered within 5 s (not a verdict: decided by the schedule exploration)",
-            initial, max, answered, max
-        ));
+        let mut again = None;
+        for _ in 0..3 {
+            let (_, a2, s2, _) = listen_round(initial, max, burst);
+            if s2 {
+                again = Some(a2);
+                break;
+            }
+        }
+        match again {
+            Some(a2) => {
+                ctx.violation(
+                    "listen/stranded-connection",
+                    &format!(
+                        "listen(initial={}, max={}), {} clients {}: only {} (and in a repetition only {}) of the first {} connections were served within 5 s although fewer than {} were in service",
+                        initial, max, n, if burst { "connecting in a burst" } else { "one after the other" }, answered, a2, max, max
+                    ),
+                    "c14-listen",
+                    json!({"initial": initial, "max": max, "burst": burst, "clients": n}),
+                );
+            }
+            None => ctx.inconclusive(&format!(
+                "listen(initial={}, max={}): only {} of the first {} connections were answered within 5 s, not repeated in 3 further runs",
+                initial, max, answered, max
+            )),
+        }
     }
-    drop(peers);
-    let _ = server.stop();
 }
 
 fn replay(ctx: &mut Ctx, v: &Value) {
@@ -890,9 +921,15 @@ pub fn run(args: &Args) -> ! {
         let n = ctx.tier.pick(1_500, 60_000);
         random_schedules(&mut ctx, n);
     }
-    for (initial, max) in [(1usize, 1usize), (1, 2), (2, 3), (1, 4)] {
-        listen_probe(&mut ctx, initial, max, false);
-        listen_probe(&mut ctx, initial, max, true);
+    let rounds = ctx.tier.pick(6, 60);
+    for _ in 0..rounds {
+        for (initial, max) in [(1usize, 1usize), (1, 2), (2, 3), (1, 4), (2, 2), (3, 4)] {
+            if ctx.failed() {
+                break;
+            }
+            listen_probe(&mut ctx, initial, max, false);
+            listen_probe(&mut ctx, initial, max, true);
+        }
     }
     let _: HashMap<u8, u8> = HashMap::new();
     ctx.finish()
